@@ -1015,6 +1015,13 @@ def _ev_fp(t, env, memo):
         _, rm, o = o.split(":", 2)
     if w not in (32, 64) and o not in ("fptosi", "fptoui", "x86.cvt"):
         raise Uneval("float width %d" % w)
+    if env.get("daz") and o in ("fadd", "fsub", "fmul", "fdiv"):
+        x_, y_ = daz_flush(ev(t[2], env, memo), w), daz_flush(ev(t[3], env, memo), w)
+        if o in ("fadd", "fsub"):
+            return fpeval.add(x_, y_, w, rm, sub=(o == "fsub"))
+        return fpeval.mul(x_, y_, w, rm) if o == "fmul" else fpeval.div(x_, y_, w, rm)
+    if env.get("daz") and o not in ("sitofp", "uitofp"):
+        raise Uneval("float step %s under DAZ is not modelled" % o)
     if o in ("fadd", "fsub"):
         return fpeval.add(ev(t[2], env, memo), ev(t[3], env, memo), w, rm, sub=(o == "fsub"))
     if o == "fmul":
@@ -1064,7 +1071,17 @@ def fsub(w, a, b):
     return mk("fsub", w, a, b)
 
 
-def eval_fcmp(pred, a, b, w):
+def daz_flush(v, w):
+    """denormals-are-zero: a denormal source operand is read as a zero of the same sign"""
+    mb = 23 if w == 32 else 52
+    if (v >> mb) & ((1 << (w - 1 - mb)) - 1) == 0:
+        return v & (1 << (w - 1))
+    return v
+
+
+def eval_fcmp(pred, a, b, w, daz=False):
+    if daz and w in (32, 64):
+        a, b = daz_flush(a, w), daz_flush(b, w)
     x, y = fdecode(a, w), fdecode(b, w)
     un = (x != x) or (y != y)
     if pred == "ord":
@@ -1881,7 +1898,7 @@ def _ev(t, env, memo):
             v += m * ev(b, env, memo)
         return v & M
     if o == "fcmp":
-        return int(eval_fcmp(t[2], ev(t[3], env, memo), ev(t[4], env, memo), t[3][1]))
+        return int(eval_fcmp(t[2], ev(t[3], env, memo), ev(t[4], env, memo), t[3][1], env.get("daz", False)))
     if o in ("shl", "lshr", "ashr", "shlsat", "lshrsat", "ashrsat"):
         x = ev(t[2], env, memo)
         a = ev(t[3], env, memo)
